@@ -1,7 +1,7 @@
 // C07 — transaction and block atomicity.
 //
 // O1 (proposer path): on every state reachable by a small recipe BFS, EVERY block of <= 3
-// transactions drawn from {4 succeeding, 7 failing} templates is run through the proposer
+// transactions drawn from {5 succeeding, 7 failing} templates is run through the proposer
 // path (ApplyBlock(allowOversize=true) on a Copy of the FSM, what Mempool.CheckMempool does).
 // The full raw state, header (state root, tx root, counters), tx results, events and the
 // indexer content written by transactions must equal those of the SAME block with the
@@ -214,11 +214,19 @@ func newWorld(c *env.Chain) (*world, error) {
 }
 
 func (w *world) cert(pos int, bad bool, t uint64) []byte {
-	ds := []*lib.DoubleSigner{{Id: env.BLS(2).PublicKey().Bytes(), Heights: []uint64{w.h*100 + uint64(pos)}}}
+	return w.certDS(pos, bad, t, w.h*100+uint64(pos))
+}
+
+// sharedDS is the double-sign height named FIRST by the failing certificate template and by the cert2x
+// template: what the failing transaction indexed before it failed must not be visible to cert2x.
+func (w *world) sharedDS() uint64 { return w.h*100 + 90 }
+
+func (w *world) certDS(pos int, bad bool, t uint64, dsHeight uint64) []byte {
+	ds := []*lib.DoubleSigner{{Id: env.BLS(2).PublicKey().Bytes(), Heights: []uint64{dsHeight}}}
 	cpH := w.h*1000 + 10 + uint64(pos)
 	if bad {
 		// second entry repeats the first: valid statelessly, invalid once the first has been indexed
-		ds = append(ds, &lib.DoubleSigner{Id: env.BLS(2).PublicKey().Bytes(), Heights: []uint64{w.h*100 + uint64(pos)}})
+		ds = append(ds, &lib.DoubleSigner{Id: env.BLS(2).PublicKey().Bytes(), Heights: []uint64{dsHeight}})
 		cpH += 500
 	}
 	tx, err := c07lib.CertResultsTx(w.c, c07lib.CertSpec{ChainHeight: w.lastC2 + 1 + uint64(pos), RootHeight: w.h, Proposer: 0, NonSigners: w.nonSigners, RewardTo: 5,
@@ -247,7 +255,7 @@ var templates = []tmpl{
 			return c07lib.DAOTransfer(5, math.MaxUint64-5, true, w.h, tstamp(w.h, 5, occ))
 		}},
 	{name: "F:cert2-bad-2nd-ds", fail: "exec", where: "HandleDoubleSigners second entry, after fee, checkpoint index, (window end: non-signer pause+slash+tracker), non-signer counters, first double signer indexed",
-		build: func(w *world, occ, pos int) []byte { return w.cert(pos, true, tstamp(w.h, 6, pos)) }},
+		build: func(w *world, occ, pos int) []byte { return w.certDS(pos, true, tstamp(w.h, 6, pos), w.sharedDS()) }},
 	{name: "F:bad-signature", fail: "check", where: "batch signature verification, never executed",
 		build: func(w *world, occ, pos int) []byte {
 			raw := c07lib.Send(4, 5, 2000+uint64(occ), w.h, tstamp(w.h, 7, occ))
@@ -287,6 +295,15 @@ var templates = []tmpl{
 		build: func(w *world, occ, pos int) []byte {
 			return c07lib.EditStake(1, 1<<62, w.comm1, w.h, tstamp(w.h, 9, occ))
 		}},
+	// a valid certificate that names the very double signer the failing certificate template indexes before it
+	// fails (first occurrence in a block; later occurrences name fresh heights so that they succeed too)
+	{name: "cert2x", build: func(w *world, occ, pos int) []byte {
+		h := w.sharedDS()
+		if occ > 0 {
+			h += uint64(occ)
+		}
+		return w.certDS(pos, false, tstamp(w.h, 11, pos), h)
+	}},
 }
 
 func (w *world) failStage(ti, occ int) string {
